@@ -78,9 +78,15 @@ HandleRec(c) ==
   [c |-> c, status |-> HandleStatus(K, L.tg, c),
    val |-> IF IsExc(L.tg.Hd[c].how) THEN 0 ELSE L.tg.Hd[c].how.e,
    exc |-> SeqOf(LeavesOf(L.tg.Hd[c].how))]
-GC == LET hs == SortedSeq(ActiveHosts) IN
+\* the library-cancelled scopes whose cancel flag the public API shows: the scopes of the active task
+\* groups (tg.cancel_scope.cancel_called) and the handle scopes of the running children
+\* (TaskHandle.status = CANCELLING)
+LiveChildren == {c \in Task : c # Root /\ Depth(K, c) >= 1 /\ K.S[c][1].tag.kind = "handle"}
+GC == LET hs == SortedSeq(ActiveHosts)
+          cs == SortedSeq(LiveChildren) IN
       [i \in DOMAIN hs |-> [t |-> hs[i], n |-> K.S[hs[i]][L.tg.G[hs[i]].sd].tag.n,
                             c |-> B2I(K.S[hs[i]][L.tg.G[hs[i]].sd].called)]]
+      \o [i \in DOMAIN cs |-> [t |-> cs[i], n |-> K.S[cs[i]][1].tag.n, c |-> B2I(K.S[cs[i]][1].called)]]
 MembersOf(h) == {c \in Task : L.tg.Hd[c].grp = h /\ L.tg.Hd[c].gn = L.tg.G[h].n}
 
 (****************************** task start **********************************)
@@ -383,7 +389,10 @@ Next ==
 Spec == Init /\ [][Next]_vars
 
 (****************************** properties **********************************)
-PropertyHolds == pbad = {}
+\* Known finding F17 (DESIGN.md section 7): the error of a start()ed child that failed before started()
+\* is lost when the caller of start() is cancelled natively before it resumes.  The model reproduces the code.
+KnownFindingClauses == {"StartErrorLostOnNativeCancelOfCaller"}
+PropertyHolds == pbad \subseteq KnownFindingClauses
 \* implementation-level twins
 \* C01: a group that is no longer active has no live member
 JoinInv == \A h \in Task : ~L.tg.G[h].active =>
